@@ -141,7 +141,8 @@ class BytesArrK(Kind):
 
     def random(self, rng):
         n = self.fixed if self.fixed is not None else rng.randint(self.minlen, min(self.rndmax, self.maxlen or self.rndmax))
-        return bytes(rng.randrange(256) for _ in range(n))
+        # boundary-biased bytes (0x00 / 0xff are over-represented)
+        return bytes(rng.choice((0, 255, rng.randrange(256), rng.randrange(256))) for _ in range(n))
 
 
 class StrK(Kind):
